@@ -58,7 +58,9 @@ class AtomicTransaction(StoreTransaction):
         Called by the transaction context manager when rolling back to ensure
         in-memory stage versions match the database state.
         """
-        for stage, original_version in self._staged_objects:
+        # Newest first: an object stored more than once in this transaction
+        # must end at the version recorded by its FIRST store.
+        for stage, original_version in reversed(self._staged_objects):
             stage.version = original_version
         self._staged_objects.clear()
 
